@@ -18,7 +18,7 @@ instance : DecidablePred Final := fun s => inferInstanceAs (Decidable (s = .clos
     CONNECTION_CLOSE_ERROR, MHD_connection_close_ (COMPLETED_OK), connection_reset. -/
 def BookT (r : Resp) (b : Bk) (c' : Conn) : Prop :=
   (¬ Final c'.st ∧ c'.bk = b) ∨
-  (c'.st = .closed ∧ c'.bk = b.close .withError) ∨
+  (c'.st = .closed ∧ ∃ t, (t = Term.withError ∨ t = readerTerm r) ∧ c'.bk = b.close t) ∨
   (c'.st = .done ∧ c'.bk = b.close .completedOk) ∨
   (c'.st = .done ∧ c'.bk = b.reset r.reuse r.stopErr)
 
@@ -44,18 +44,18 @@ theorem wbAccount_book {r : Resp} (c : Conn) (o : SendOut) (next : St) (hc : ¬ 
   simp only []
   split
   · exact Or.inl ⟨hc, rfl⟩
-  · exact Or.inr (Or.inl ⟨rfl, rfl⟩)
+  · exact Or.inr (Or.inl ⟨rfl, Term.withError, Or.inl rfl, rfl⟩)
   · exact checkWriteDone_book (c := { c with out := c.out ++ o.wire, so := c.so + _ }) hc hn
 
 theorem hwHeaders_book {r : Resp} (c : Conn) (s1 s2 : SockRes) (hc : ¬ Final c.st) :
     BookT r c.bk (hwHeaders r c s1 s2) := by
   unfold hwHeaders
   split
-  · exact Or.inr (Or.inl ⟨rfl, rfl⟩)
+  · exact Or.inr (Or.inl ⟨rfl, Term.withError, Or.inl rfl, rfl⟩)
   · simp only []
     split
     · exact Or.inl ⟨hc, rfl⟩
-    · exact Or.inr (Or.inl ⟨rfl, rfl⟩)
+    · exact Or.inr (Or.inl ⟨rfl, Term.withError, Or.inl rfl, rfl⟩)
     · split
       · exact checkWriteDone_book (c := { c with out := _, so := _, rp := _ }) hc (by decide)
       · exact checkWriteDone_book (c := { c with out := _, so := _ }) hc (by decide)
@@ -67,7 +67,8 @@ theorem tryReady_book {r : Resp} (c : Conn) (app : AppAns) (alloc : Bool) (hc : 
   repeat' split
   all_goals first
     | exact ⟨Or.inl ⟨hc, rfl⟩, fun _ => rfl⟩
-    | exact ⟨Or.inr (Or.inl ⟨rfl, rfl⟩), fun h => by cases h⟩
+    | exact ⟨Or.inr (Or.inl ⟨rfl, Term.withError, Or.inl rfl, rfl⟩), fun h => by cases h⟩
+    | exact ⟨Or.inr (Or.inl ⟨rfl, readerTerm r, Or.inr rfl, rfl⟩), fun h => by cases h⟩
     | exact ⟨Or.inr (Or.inr (Or.inl ⟨rfl, rfl⟩)), fun h => by cases h⟩
     | exact ⟨Or.inl ⟨by simp [Final], rfl⟩, fun h => by cases h⟩
 
@@ -97,7 +98,7 @@ theorem hwNormalBody_book {r : Resp} (c : Conn) (s : SockRes) (app : AppAns) (al
       repeat' split
       all_goals first
         | exact Or.inl ⟨hc', rfl⟩
-        | exact Or.inr (Or.inl ⟨rfl, rfl⟩)
+        | exact Or.inr (Or.inl ⟨rfl, Term.withError, Or.inl rfl, rfl⟩)
         | exact Or.inl ⟨by simp [Final], rfl⟩
   · split
     · exact Or.inl ⟨by simp [Final], rfl⟩
@@ -114,10 +115,10 @@ theorem handleWrite_book {r : Resp} (c : Conn) (s1 s2 : SockRes) (app : AppAns) 
   · exact hwHeaders_book c s1 s2 hc
   · exact hwNormalBody_book c s1 app alloc hc
   · split
-    · exact Or.inr (Or.inl ⟨rfl, rfl⟩)
+    · exact Or.inr (Or.inl ⟨rfl, Term.withError, Or.inl rfl, rfl⟩)
     · exact wbAccount_book c _ _ hc (by split <;> simp [Final])
   · split
-    · exact Or.inr (Or.inl ⟨rfl, rfl⟩)
+    · exact Or.inr (Or.inl ⟨rfl, Term.withError, Or.inl rfl, rfl⟩)
     · exact wbAccount_book c _ _ hc (by simp [Final])
   · exact Or.inl ⟨hc, rfl⟩
 
@@ -131,7 +132,7 @@ theorem tryChunk_book {r : Resp} (c : Conn) (app : AppAns) (hc : ¬ Final c.st) 
   repeat' split
   all_goals first
     | exact ⟨Or.inl ⟨hc, rfl⟩, fun _ => rfl⟩
-    | exact ⟨Or.inr (Or.inl ⟨rfl, rfl⟩), fun h => absurd rfl h⟩
+    | exact ⟨Or.inr (Or.inl ⟨rfl, Term.withError, Or.inl rfl, rfl⟩), fun h => absurd rfl h⟩
     | exact ⟨Or.inl ⟨by simp [Final], rfl⟩, fun h => absurd rfl h⟩
 
 theorem idleStep_final {r : Resp} {c : Conn} (app : AppAns) (alloc : Bool) (h : Final c.st) :
@@ -172,7 +173,7 @@ theorem idleStep_book {r : Resp} (c : Conn) (app : AppAns) (alloc : Bool) (hc : 
   · -- CHUNKED_BODY_SENT
     split
     · exact Or.inl ⟨by simp [Final], rfl⟩
-    · exact Or.inr (Or.inl ⟨rfl, rfl⟩)
+    · exact Or.inr (Or.inl ⟨rfl, Term.withError, Or.inl rfl, rfl⟩)
   · -- FULL_REPLY_SENT: connection_reset
     exact Or.inr (Or.inr (Or.inr ⟨rfl, rfl⟩))
   · exact Or.inl ⟨hc, rfl⟩
@@ -200,7 +201,7 @@ theorem Bk.fin_idem (b : Bk) : b.fin.fin = b.fin := by
 /-- the bookkeeping at the end of a round (after `MHD_connection_handle_idle`) -/
 def BookR (r : Resp) (b : Bk) (c' : Conn) : Prop :=
   (¬ Final c'.st ∧ c'.bk = b) ∨
-  (c'.st = .closed ∧ c'.bk = (b.close .withError).fin) ∨
+  (c'.st = .closed ∧ ∃ t, (t = Term.withError ∨ t = readerTerm r) ∧ c'.bk = (b.close t).fin) ∨
   (c'.st = .done ∧ c'.bk = (b.close .completedOk).fin) ∨
   (c'.st = .done ∧ c'.bk = (b.reset r.reuse r.stopErr).fin)
 
@@ -212,7 +213,8 @@ theorem BookT.closed {r : Resp} {b : Bk} {c' : Conn} (h : BookT r b c') (hb : b.
   rw [idleClosed_st, idleClosed_bk]
   rcases h with ⟨h1, h2⟩ | ⟨h1, h2⟩ | ⟨h1, h2⟩ | ⟨h1, h2⟩
   · left; refine ⟨h1, ?_⟩; rw [h2]; unfold Bk.fin; rw [hb]; rfl
-  · right; left; exact ⟨h1, by rw [h2]⟩
+  · obtain ⟨t, ht, h2⟩ := h2
+    right; left; exact ⟨h1, t, ht, by rw [h2]⟩
   · right; right; left; exact ⟨h1, by rw [h2]⟩
   · right; right; right; exact ⟨h1, by rw [h2]⟩
 
@@ -243,24 +245,26 @@ theorem round_book {r : Resp} (c : Conn) (x : Round) (hc : ¬ Final c.st) (hb : 
     CLOSED case of the idle loop has run, which every round ends with). -/
 structure Book (r : Resp) (c : Conn) : Prop where
   live : ¬ Final c.st → c.bk = Bk.init r.aware
-  closed : c.st = .closed →
-    c.bk = (Bk.init r.aware).close .withError ∨ c.bk = ((Bk.init r.aware).close .withError).fin
+  closed : c.st = .closed → ∃ t, (t = Term.withError ∨ t = readerTerm r) ∧
+    (c.bk = (Bk.init r.aware).close t ∨ c.bk = ((Bk.init r.aware).close t).fin)
   done : c.st = .done →
     c.bk = ((Bk.init r.aware).close .completedOk).fin ∨ c.bk = ((Bk.init r.aware).reset r.reuse r.stopErr).fin
 
 theorem start_book (r : Resp) (a : Bool) : Book r (startReply r a) := by
   cases a
-  · exact ⟨fun h => absurd (Or.inl rfl) h, fun _ => Or.inl rfl, fun h => (by cases h)⟩
+  · exact ⟨fun h => absurd (Or.inl rfl) h, fun _ => ⟨_, Or.inl rfl, Or.inl rfl⟩, fun h => (by cases h)⟩
   · exact ⟨fun _ => rfl, fun h => (by cases h), fun h => (by cases h)⟩
 
-/-- after a round that ends in `closed`, the error close and the clean-up have both run, once -/
+/-- after a round that ends in `closed`, the close and the clean-up have both run, once -/
 theorem round_closed_bk {r : Resp} {c : Conn} (h : Book r c) (x : Round) (hcl : (round r c x).st = .closed) :
-    (round r c x).bk = ((Bk.init r.aware).close .withError).fin := by
+    ∃ t, (t = Term.withError ∨ t = readerTerm r) ∧ (round r c x).bk = ((Bk.init r.aware).close t).fin := by
   by_cases hf : Final c.st
   · rw [round_final x hf] at hcl ⊢
     rw [idleClosed_st] at hcl
     rw [idleClosed_bk]
-    rcases h.closed hcl with e | e <;> rw [e]
+    obtain ⟨t, ht, e⟩ := h.closed hcl
+    refine ⟨t, ht, ?_⟩
+    rcases e with e | e <;> rw [e]
     exact Bk.fin_idem _
   · have hb := h.live hf
     have := round_book (r := r) c x hf (by rw [hb]; rfl)
@@ -277,7 +281,9 @@ theorem round_book_inv {r : Resp} {c : Conn} (h : Book r c) (x : Round) : Book r
     refine ⟨fun hn => ?_, fun hc => ?_, fun hd => ?_⟩
     · rw [idleClosed_st] at hn; exact absurd hf hn
     · rw [idleClosed_st] at hc; rw [idleClosed_bk]
-      rcases h.closed hc with e | e <;> rw [e]
+      obtain ⟨t, ht, e⟩ := h.closed hc
+      refine ⟨t, ht, ?_⟩
+      rcases e with e | e <;> rw [e]
       · exact Or.inr rfl
       · exact Or.inr (Bk.fin_idem _)
     · rw [idleClosed_st] at hd; rw [idleClosed_bk]
@@ -289,7 +295,8 @@ theorem round_book_inv {r : Resp} {c : Conn} (h : Book r c) (x : Round) : Book r
     rw [hb] at this
     rcases this with ⟨h1, h2⟩ | ⟨h1, h2⟩ | ⟨h1, h2⟩ | ⟨h1, h2⟩
     · exact ⟨fun _ => h2, fun hc => absurd (Or.inl hc) h1, fun hd => absurd (Or.inr hd) h1⟩
-    · exact ⟨fun hn => absurd (Or.inl h1) hn, fun _ => Or.inr h2, fun hd => (by rw [h1] at hd; cases hd)⟩
+    · obtain ⟨t, ht, h2⟩ := h2
+      exact ⟨fun hn => absurd (Or.inl h1) hn, fun _ => ⟨t, ht, Or.inr h2⟩, fun hd => (by rw [h1] at hd; cases hd)⟩
     · exact ⟨fun hn => absurd (Or.inr h1) hn, fun hc => (by rw [h1] at hc; cases hc), fun _ => Or.inl h2⟩
     · exact ⟨fun hn => absurd (Or.inr h1) hn, fun hc => (by rw [h1] at hc; cases hc), fun _ => Or.inr h2⟩
 
@@ -300,14 +307,24 @@ theorem run_book_inv {r : Resp} : ∀ (xs : List Round) (c : Conn), Book r c →
     rw [this]
     exact run_book_inv xs _ (round_book_inv h x)
 
-/-- what the record says after an error close: one notification (iff the application knew the
-    request) with the error code, the response reference dropped once, the pool destroyed once,
-    at most one insertion into the clean-up list -/
+/-- what the record says after a close: one notification (iff the application knew the request)
+    — with the error code, or COMPLETED_OK when the content reader ended the body early by
+    END_OF_STREAM —, the response reference dropped once, the pool destroyed once (the connection
+    is never kept), at most one insertion into the clean-up list -/
 theorem Book.closed_counts {r : Resp} {c : Conn} (h : Book r c) (hc : c.st = .closed) :
-    c.bk.notes = (if r.aware then [Term.withError] else []) ∧ c.bk.aware = false ∧
+    ∃ t, (t = Term.withError ∨ (r.failEos = true ∧ t = Term.completedOk)) ∧
+    c.bk.notes = (if r.aware then [t] else []) ∧ c.bk.aware = false ∧
     c.bk.respHeld = false ∧ c.bk.respDrops = 1 ∧ c.bk.poolLive = false ∧ c.bk.poolDestroys = 1 ∧
     c.bk.poolResets = 0 ∧ c.bk.cstClosed = true ∧ c.bk.cleanups = (if c.bk.inCleanup then 1 else 0) := by
-  rcases h.closed hc with e | e <;> rw [e] <;> cases r.aware <;> decide
+  obtain ⟨t, ht, e⟩ := h.closed hc
+  refine ⟨t, ?_, ?_⟩
+  · rcases ht with ht | ht
+    · exact Or.inl ht
+    · unfold readerTerm at ht
+      cases hf : r.failEos
+      · left; rw [ht, hf]; rfl
+      · right; exact ⟨rfl, by rw [ht, hf]; rfl⟩
+  · rcases e with e | e <;> rw [e] <;> cases r.aware <;> cases t <;> decide
 
 /-- … after a completed reply: one notification (iff the application knew the request), never
     more; the response reference dropped once; the pool either reset (keep-alive) or destroyed,
